@@ -74,7 +74,7 @@ T = {
  "C33-p33": ("C33", "an OAuth2-trust (external IdP) login that asks for privileges at init",
              "caught", "quick seed 1", "c33/write-scope-for-readonly-login-type/oauth2-trust",
              "missed at first (logins through an external provider were not driven); idmsim now sets up a trusted provider, links persons to it and scripts the front end's provider round trips, with and without the privileged flag"),
- "C36-p36": ("C36", "a login's session record is written AFTER the credential that issued it was removed in its own write", None, None, None, None),
+ "C36-p36": ("C36", "a login's session record is written AFTER the credential that issued it was removed in its own write", "caught", "quick seed 1", "c36/live-session-references-missing-credential", None),
  "C37-n37": ("C37", "a reset link exchanged once before its expiry (not committed), time advanced past the expiry, exchanged again", "caught", "quick seed 1", "c37/exchange-accepted-after-expiry", None),
  "C38-m38": ("C38", "a client with a supplementary scope map holding a scope no ordinary scope map gives the user, and a request naming that scope", "caught", "quick seed 1", "c38/scope-unmapped-granted, c38/scope-not-held-granted", None),
  "C39-p39": ("C39", "a client with PKCE made optional, an authorisation request that still sent a challenge, a token request without verifier", "caught", "quick seed 1", "c39/code-redeemed-without-verifier", None),
